@@ -136,6 +136,7 @@ func runC07(c *Ctx) {
 				// continue; watch the accepting Step
 				bad := ""
 				secondRaised := false
+				ranFirst := false
 				acceptedAt := -1
 				var pushed, pcAcc uint16
 				budget := n + 400
@@ -144,7 +145,10 @@ func runC07(c *Ctx) {
 					pc := cpu.PC
 					sp := cpu.SP
 					pending := cpu.Interrupt != nil
+					mem.ClearLog()
+					mem.Logging = true
 					cpu.Step()
+					mem.Logging = false
 					steps++
 					if kind.Second && acceptedAt >= 0 && !secondRaised && steps-1 == acceptedAt+1+k%3 {
 						secondRaised = true
@@ -155,8 +159,17 @@ func runC07(c *Ctx) {
 					if pending && cpu.Interrupt == nil && acceptedAt < 0 {
 						acceptedAt = steps - 1
 						pcAcc = pc
+						// Did the accepting Step also run a program instruction first (an
+						// implementation may sample the request at the end of an instruction)?
+						// Then the first unexecuted instruction is the next boundary of the
+						// undisturbed run.  Before acceptance every Step ran one instruction.
+						if len(mem.Log) > 0 && mem.Log[0].Kind == 'R' && mem.Log[0].Addr == pc {
+							pcAcc = pcAt(pcs, steps, p)
+							sp = cpu.SP + 2 // the push happened after that instruction
+							ranFirst = true
+						}
 						pushed = uint16(mem.Data[sp-2]) | uint16(mem.Data[sp-1])<<8
-						if cpu.SP != sp-2 {
+						if cpu.SP != sp-2 && !ranFirst {
 							bad = "acceptance did not lower SP by 2"
 							break
 						}
